@@ -83,6 +83,7 @@ func (m *Module) enableInlining() {
 	if m.anchors == nil {
 		m.anchors = map[*ssa.Function]bool{}
 	}
+	m.expandArithCalls()
 	m.findDeferClosures()
 	m.liftLocalCells()
 	inModule := map[*ssa.Function]bool{}
